@@ -207,7 +207,7 @@ mod vk_range {
 
     // the same operations seen at the level of the std atomics (every atomic operation on the counter is logged, whatever
     // AtomicCounter method -- existing or new -- performed it)
-    // @harness name=range_ops_std props=C01,C04,C05,C06,C09,C10,C11 kind=complete bound="any range; chunk size and every value read symbolic over the full usize domain"
+    // @harness name=range_ops_std props=C01,C04,C05,C06,C09,C10,C11,C17 kind=complete bound="any range; chunk size and every value read symbolic over the full usize domain"
     #[kani::proof]
         #[kani::stub(std::sync::atomic::Atomic::<usize>::fetch_add, a_faa)]
     #[kani::stub(std::sync::atomic::Atomic::<usize>::fetch_sub, a_fsub)]
